@@ -233,3 +233,127 @@ fn cmd_name_only() {
     std::mem::forget(r);
     assert!(ok == is_ready, "command name match disagrees with the literal READY");
 }
+
+// ---- <ZmqCodec as Encoder>::encode for a multipart message (the `enumerate` loop Verus cannot parse) ----
+use asynchronous_codec::{Decoder, Encoder};
+
+fn any_frame() -> (Bytes, u8, usize) {
+    let b: u8 = kani::any();
+    let n: usize = kani::any();
+    kani::assume(n <= 1);
+    let arr = [b];
+    (Bytes::copy_from_slice(&arr[..n]), b, n)
+}
+
+/// BOUNDED: messages of 1..=3 frames, each body 0..=1 symbolic octets (equal and different frame contents,
+/// empty frames in every position).  The wire image must be exactly, for every frame,
+///   flags(MORE iff not last) size(1) body
+/// (bodies here are <= 255 octets; the size-width choice is proved for every length in Verus on
+/// encode_frame).  Checks order, MORE-on-all-but-last, no extra or missing octets.
+#[kani::proof]
+#[kani::unwind(11)]
+fn encode_loop() {
+    let nframes: usize = kani::any();
+    kani::assume(nframes >= 1 && nframes <= 3);
+    let (f0, b0, n0) = any_frame();
+    let (f1, b1, n1) = any_frame();
+    let (f2, b2, n2) = any_frame();
+    let mut m = ZmqMessage::from(f0);
+    if nframes >= 2 {
+        m.push_back(f1);
+    }
+    if nframes >= 3 {
+        m.push_back(f2);
+    }
+    let mut dst = BytesMut::new();
+    let mut codec = ZmqCodec::new();
+    let r = codec.encode(Message::Message(m), &mut dst);
+    let ok = r.is_ok();
+    std::mem::forget(r);
+    assert!(ok, "encoding a message must not fail");
+    // expected image
+    let mut exp = [0u8; 9];
+    let mut k = 0;
+    exp[k] = if nframes > 1 { 1 } else { 0 };
+    exp[k + 1] = n0 as u8;
+    k += 2;
+    if n0 == 1 {
+        exp[k] = b0;
+        k += 1;
+    }
+    if nframes >= 2 {
+        exp[k] = if nframes > 2 { 1 } else { 0 };
+        exp[k + 1] = n1 as u8;
+        k += 2;
+        if n1 == 1 {
+            exp[k] = b1;
+            k += 1;
+        }
+    }
+    if nframes >= 3 {
+        exp[k] = 0;
+        exp[k + 1] = n2 as u8;
+        k += 2;
+        if n2 == 1 {
+            exp[k] = b2;
+            k += 1;
+        }
+    }
+    assert!(dst.len() == k, "wire image has extra or missing octets");
+    let out: &[u8] = &dst[..];
+    let mut q = 0;
+    while q < 9 {
+        if q < k {
+            assert!(out[q] == exp[q], "wire image differs from the RFC 23 frame sequence");
+        }
+        q += 1;
+    }
+    kani::cover!(nframes == 3 && n0 == 1 && n2 == 1 && b0 == b2, "first and last frame with equal content");
+}
+
+/// BOUNDED (smaller twin of `encode_loop` for the quick tier): 1..=2 frames, bodies of 0..=1 octets.
+#[kani::proof]
+#[kani::unwind(8)]
+fn encode_loop2() {
+    let two: bool = kani::any();
+    let (f0, b0, n0) = any_frame();
+    let (f1, b1, n1) = any_frame();
+    let mut m = ZmqMessage::from(f0);
+    if two {
+        m.push_back(f1);
+    }
+    let mut dst = BytesMut::new();
+    let mut codec = ZmqCodec::new();
+    let r = codec.encode(Message::Message(m), &mut dst);
+    let ok = r.is_ok();
+    std::mem::forget(r);
+    assert!(ok, "encoding a message must not fail");
+    let mut exp = [0u8; 6];
+    let mut k = 0;
+    exp[k] = if two { 1 } else { 0 };
+    exp[k + 1] = n0 as u8;
+    k += 2;
+    if n0 == 1 {
+        exp[k] = b0;
+        k += 1;
+    }
+    if two {
+        exp[k] = 0;
+        exp[k + 1] = n1 as u8;
+        k += 2;
+        if n1 == 1 {
+            exp[k] = b1;
+            k += 1;
+        }
+    }
+    assert!(dst.len() == k, "wire image has extra or missing octets");
+    let out: &[u8] = &dst[..];
+    let mut q = 0;
+    while q < 6 {
+        if q < k {
+            assert!(out[q] == exp[q], "wire image differs from the RFC 23 frame sequence");
+        }
+        q += 1;
+    }
+    kani::cover!(two && n0 == n1 && (n0 == 0 || b0 == b1), "two frames with equal content");
+}
